@@ -331,9 +331,11 @@ class BreakNode(Node):
         assert isinstance(self.token, TagToken)
         return f"{{%{self.token.wc[0]} break {self.token.wc[1]}%}}"
 
-    def render_to_output(self, _context: RenderContext, _buffer: TextIO) -> int:
+    def render_to_output(self, context: RenderContext, _buffer: TextIO) -> int:
         """Render the node to the output buffer."""
-        raise BreakLoop("break", token=self.token)
+        raise BreakLoop(
+            "break", token=self.token, template_name=context.template.full_name()
+        )
 
 
 class ContinueNode(Node):
@@ -343,9 +345,11 @@ class ContinueNode(Node):
         assert isinstance(self.token, TagToken)
         return f"{{%{self.token.wc[0]} continue {self.token.wc[1]}%}}"
 
-    def render_to_output(self, _context: RenderContext, _buffer: TextIO) -> int:
+    def render_to_output(self, context: RenderContext, _buffer: TextIO) -> int:
         """Render the node to the output buffer."""
-        raise ContinueLoop("continue", token=self.token)
+        raise ContinueLoop(
+            "continue", token=self.token, template_name=context.template.full_name()
+        )
 
 
 class BreakTag(Tag):
